@@ -1224,3 +1224,192 @@ pub fn c04(tier: Tier) -> Vec<Scenario> {
     out.push(s);
     out
 }
+
+
+// ------------------------------------------------------------------------------------------ long runs
+use super::model::Policy;
+
+const KINDS7: [OpKind; 7] = [OpKind::Bind, OpKind::Compare, OpKind::Delete, OpKind::Extended, OpKind::Add, OpKind::Modify, OpKind::ModDn];
+
+fn nexts(n: usize) -> Vec<Call> {
+    std::iter::repeat(Call::Next).take(n).collect()
+}
+
+/// Scenarios far beyond what the search can enumerate, each executed once under a fixed
+/// scheduling policy (see `model::run_canonical`): counts and sizes past every small bound.
+pub fn long_runs(prop: &str) -> Vec<(Scenario, Policy)> {
+    let mut out: Vec<(Scenario, Policy)> = vec![];
+    let full = Oracles { route: true, ids: true, leak: true, stream: true, ..Default::default() };
+    match prop {
+        "C01" | "C05" | "C13" => {
+            // a long life of one handle: 1000 single operations of every kind, one after the other
+            let mut s = Scenario::new(&format!("{}/long/1000-single-ops", prop));
+            s.clients = vec![client((0..1000).map(|k| single(KINDS7[k % 7].clone(), &format!("o{}", k))).collect())];
+            for k in (0..1000).step_by(13) {
+                s.plans.insert(format!("o{}", k), Plan { rc: (k % 90) as u32, res_ctrls: k % 2 == 0, ..Default::default() });
+            }
+            s.oracles = full.clone();
+            out.push((s, Policy::Eager));
+            // many handles with an operation in flight at the same time
+            for n in [8usize, 40, 130] {
+                let mut s = Scenario::new(&format!("{}/long/{}-handles-in-flight", prop, n));
+                s.clients = (0..n).map(|k| client(vec![single(KINDS7[k % 7].clone(), &format!("h{}a", k)), single(KINDS7[(k + 3) % 7].clone(), &format!("h{}b", k))])).collect();
+                s.oracles = full.clone();
+                out.push((s.clone(), Policy::ClientsFirst));
+                if n == 8 {
+                    out.push((s, Policy::ServerFirst));
+                }
+            }
+            // many searches given up early, one after the other (late items keep arriving), then more work
+            for n in [20usize, 40, 300] {
+                let mut s = Scenario::new(&format!("{}/long/{}-searches-finished-early", prop, n));
+                let mut script = vec![];
+                for k in 0..n {
+                    script.extend([start(&format!("e{}", k), if k % 2 == 0 { Chain::Direct } else { Chain::EntriesOnly }), Call::Next, Call::Finish]);
+                    s.plans.insert(format!("e{}", k), plan_items(&[E, E, R]));
+                }
+                script.push(single(OpKind::Delete, "after"));
+                script.push(Call::Search { marker: "after-s".into(), timeout: None });
+                s.plans.insert("after-s".into(), plan_items(&[E]));
+                s.clients = vec![client(script)];
+                s.oracles = full.clone();
+                out.push((s.clone(), Policy::Eager));
+                out.push((s, Policy::ServerFirst));
+            }
+        }
+        _ => {}
+    }
+    match prop {
+        "C01" | "C10" | "C04" => {
+            // long streams: 1500 items, read as they come or only after all have arrived
+            for chain in [Some(Chain::Direct), Some(Chain::EntriesOnly), None] {
+                for n in [100usize, 1500] {
+                    let mut s = Scenario::new(&format!("{}/long/{}-items/{:?}", prop, n, chain));
+                    let mut script = match &chain {
+                        Some(c) => {
+                            let mut v = vec![start("big", c.clone())];
+                            v.extend(nexts(n + 1));
+                            v.push(Call::Finish);
+                            v
+                        }
+                        None => vec![Call::Search { marker: "big".into(), timeout: None }],
+                    };
+                    script.push(single(OpKind::Compare, "after"));
+                    s.clients = vec![client(script), client(vec![single(OpKind::Bind, "other")])];
+                    s.plans.insert("big".into(), Plan { many_items: n, rc: 4, res_ctrls: true, ..Default::default() });
+                    s.oracles = full.clone();
+                    out.push((s.clone(), Policy::Eager));
+                    out.push((s, Policy::ServerFirst));
+                }
+            }
+            // entries of 9000 / 20000 / 70000 octets and entries with 100 values, other traffic right behind
+            for (vs, nv) in [(9000usize, 0usize), (20000, 0), (70000, 0), (0, 100), (1000, 300)] {
+                let mut s = Scenario::new(&format!("{}/long/entries-value{}-values{}", prop, vs, nv));
+                s.clients = vec![
+                    client(vec![start("s", Chain::Direct), Call::Next, Call::Next, Call::Next, Call::Finish]),
+                    client(vec![single(OpKind::Compare, "c0"), Call::Search { marker: "t".into(), timeout: None }]),
+                ];
+                s.plans.insert("s".into(), Plan { items: vec![E, E], entry_value_size: vs, entry_values: nv, ..Default::default() });
+                s.plans.insert("t".into(), Plan { items: vec![E], entry_value_size: vs, entry_values: nv, ..Default::default() });
+                s.oracles = Oracles { route: true, ids: true, stream: true, ..Default::default() };
+                out.push((s.clone(), Policy::ServerFirst));
+                out.push((s, Policy::ClientsFirst));
+            }
+        }
+        _ => {}
+    }
+    if prop == "C10" {
+        // search() with search options whose size limit the server reports as exceeded
+        let mut s = Scenario::new("C10/long/search()-size-limit-reached");
+        s.clients = vec![client(vec![Call::SearchOpts { marker: "lim".into() }, Call::SearchOpts { marker: "lim2".into() }])];
+        s.plans.insert("lim".into(), Plan { items: vec![E; 11], rc: 4, res_ctrls: true, ..Default::default() });
+        s.plans.insert("lim2".into(), Plan { items: vec![E, E, R, E, E, E, E, E, E, E, E, E, R], rc: 0, ..Default::default() });
+        s.oracles = full.clone();
+        out.push((s, Policy::Eager));
+    }
+    if prop == "C04" {
+        // an unread stream with 1500 items queued, another operation pending, then the server closes
+        for policy in [Policy::ServerFirst, Policy::Eager] {
+            let mut s = Scenario::new("C04/long/unread-stream+pending-op+close");
+            s.clients = vec![client(vec![start("big", Chain::Direct)]), client(vec![single(OpKind::Compare, "q"), single(OpKind::Bind, "later")])];
+            s.plans.insert("big".into(), Plan { many_items: 1500, ..Default::default() });
+            s.plans.insert("q".into(), Plan { silent: true, ..Default::default() });
+            s.faults = vec![FaultKind::Eof];
+            s.fault_budget = 1;
+            s.oracles = Oracles { term: true, route: true, ..Default::default() };
+            out.push((s, policy));
+        }
+        // 130 operations in flight when the connection is lost; every handle then tries once more
+        let mut s = Scenario::new("C04/long/130-ops-in-flight+close");
+        s.clients = (0..130).map(|k| client(vec![single(KINDS7[k % 7].clone(), &format!("q{}", k)), single(OpKind::Bind, &format!("r{}", k))])).collect();
+        for k in 0..130 {
+            s.plans.insert(format!("q{}", k), Plan { silent: true, ..Default::default() });
+        }
+        s.faults = vec![FaultKind::Eof];
+        s.fault_budget = 1;
+        s.oracles = Oracles { term: true, route: true, ..Default::default() };
+        out.push((s.clone(), Policy::ClientsFirst));
+        s.faults = vec![FaultKind::Reset];
+        s.name = "C04/long/130-ops-in-flight+reset".into();
+        out.push((s, Policy::ClientsFirst));
+    }
+    if prop == "C12" {
+        let o = Oracles { timing: true, route: true, leak: true, ids: true, ..Default::default() };
+        // a search times out; the server then delivers the rest of a large result late; later work goes on
+        for n in [300usize, 1000] {
+            let mut s = Scenario::new(&format!("C12/long/{}-late-frames-after-a-timeout", n));
+            s.clients = vec![client(vec![
+                Call::Start { marker: "slow".into(), chain: Chain::Direct, timeout: Some(10), ctrl: false, opts: false, own_paging: false },
+                Call::Next,
+                Call::Finish,
+                single(OpKind::Delete, "after"),
+                tsingle(OpKind::Compare, "after2", 10),
+            ])];
+            s.plans.insert("slow".into(), Plan { many_items: n, ..Default::default() });
+            s.tick_budget = 2;
+            s.oracles = o.clone();
+            out.push((s, Policy::ClockFirst));
+        }
+        // exactly as many entries as the size limit, then silence: the per-item timer still runs
+        let mut s = Scenario::new("C12/long/size-limit-entries-then-silence");
+        let mut script = vec![Call::Start { marker: "lim".into(), chain: Chain::Direct, timeout: Some(10), ctrl: false, opts: true, own_paging: false }];
+        script.extend(nexts(12));
+        script.push(Call::Finish);
+        script.push(single(OpKind::Bind, "after"));
+        s.clients = vec![client(script)];
+        s.plans.insert("lim".into(), Plan { items: vec![E; 11], no_done: true, ..Default::default() });
+        s.tick_budget = 3;
+        s.oracles = o.clone();
+        out.push((s, Policy::Eager));
+        // timeouts far beyond 32 bits of milliseconds
+        for t in [(1u64 << 32) + 200, (1u64 << 33) + 5, 86_400_000 * 50] {
+            let mut s = Scenario::new(&format!("C12/long/timeout-{}ms", t));
+            s.clients = vec![client(vec![tsingle(OpKind::Compare, "t0", t), Call::Search { marker: "s".into(), timeout: Some(t) }])];
+            s.plans.insert("s".into(), plan_items(&[E]));
+            s.tick_ms = 100;
+            s.tick_budget = 4;
+            s.oracles = o.clone();
+            out.push((s, Policy::ClockFirst));
+        }
+    }
+    if prop == "C13" {
+        for (st, n) in [(Step::TimedOut, 40usize), (Step::SearchAllTimedOut, 40), (Step::PagedEarly, 40), (Step::AbandonFinished, 40), (Step::StreamTimedOutFinish, 40), (Step::ThroughStreamHandle, 40), (Step::DirectEarly, 300)] {
+            let mut s = c13_seq(&[st], n);
+            s.name = format!("C13/long/{:?}x{}", st, n);
+            out.push((s, Policy::Eager));
+        }
+    }
+    if prop == "C16" {
+        for (n, p, chain) in [(300usize, 1i32, Chain::Paged(1)), (300, 1, Chain::EntriesPaged(1)), (257, 1, Chain::PagedEntries(1)), (1000, 3, Chain::Paged(3)), (5000, 1000, Chain::Paged(1000))] {
+            let mut s = Scenario::new(&format!("C16/long/{}-entries-pages-of-{}/{:?}", n, p, chain));
+            let mut script = vec![start("pg", chain)];
+            script.extend(nexts(n + 1));
+            script.push(Call::Finish);
+            s.clients = vec![client(script)];
+            s.plans.insert("pg".into(), Plan { total: n, cookie: CookieStyle::Constant, res_ctrls: true, ..Default::default() });
+            s.oracles = Oracles { paged: true, stream: true, route: true, leak: true, ids: true, ..Default::default() };
+            out.push((s, Policy::Eager));
+        }
+    }
+    out
+}
